@@ -155,13 +155,24 @@ class Ctx(object):
     if not self.replaying:
       if self.first_fail is None:
         self.first_fail = now
-      budget = SHRINK_BUDGET.get(self.tier, 20.0)
-      if now - self.first_fail > budget and key != self.best_fail_key:
+      if self.budget_exhausted() and key != self.best_fail_key:
         # shrink budget used up: pretend this candidate passes so Hypothesis
         # finishes and replays the best failing case found so far.
         return
       self.best_fail_key = key
+      self.best_outer_key = getattr(self, 'current_outer_key', None)
     raise Violation(sig, message, case, subcheck)
+
+  def budget_exhausted(self):
+    if self.first_fail is None:
+      return False
+    return time.time() - self.first_fail > SHRINK_BUDGET.get(self.tier, 20.0)
+
+  def skip_candidate(self, outer_key):
+    """True when the shrink budget is used up and this generated case is not the best failing one: the
+    driver then does not even execute it."""
+    return (not self.replaying and self.budget_exhausted() and
+            getattr(self, 'best_outer_key', None) is not None and outer_key != self.best_outer_key)
 
 
 def trim(obj, limit=1500):
